@@ -1,6 +1,7 @@
 import AikenVerif.Lemmas.SchemaMain
 import AikenVerif.Lemmas.SchemaFuel
 import AikenVerif.Lemmas.SchemaPublish
+import AikenVerif.Lemmas.SchemaEncode
 /-!
 # C12 — Blueprint schemas describe exactly what validators accept
 
@@ -81,6 +82,24 @@ theorem conforms_panics :
   ⟨[(.adt 0 .nil, .data (.anyOf [(0, [.inline .integer, .inline .bytes]), (1, [])]))],
    .ref (.adt 0 .nil), .constr 0 [.int 1], by decide⟩
 
+/-- C12, second half (expect side): every typed value, serialised, is accepted by the compiled
+`expect` at its type.  `encode … = some d` says "`v` has type `t` and `d` is its serialisation";
+`TagsDistinct` is the type checker's rule that constructor indices do not overlap (decidable).
+Acceptance is at the same fuel the encoder used (`.ok` at any fuel is acceptance). -/
+theorem encode_inhabits {decls : Decls} (hw : TagsDistinct decls) (fuel : Nat) (t : ATy) (v : Val)
+    (d : Data) (h : encode decls fuel t v = some d) : inh decls fuel t d = .ok :=
+  encode_inh hw fuel t v d h
+
+/-- C12, second half (schema side): … and validates against the published schema.
+`_partial`: stated for the validator run with the encoder's fuel, not for `conformsFixed`'s
+canonical `dsize d + 2` (the fuel-monotonicity lemma that bridges the two is not proved). -/
+theorem encode_conforms_partial {decls : Decls} {tbl : Table} (hF : Faithful decls tbl)
+    (hw : TagsDistinct decls) {t : ATy} {ds : DSchema} (hdef : tbl.get t = some (.data ds))
+    (fuel : Nat) (v : Val) (d : Data) (h : encode decls fuel t v = some d) :
+    vData true tbl fuel ds d = .ok := by
+  rw [vData_eq_inh hF fuel t ds d hdef]
+  exact encode_inh hw fuel t v d h
+
 /-- constructor index ↔ CBOR tag: what `Data::constr` writes, `unConstrData` reads back,
 for every index (compact 121..127, 1280..1400, and the general form from 128 on) -/
 theorem tag_index_agree (ix : Nat) :
@@ -130,5 +149,13 @@ example : ∃ tbl, publish exDecls 64 exParams = some tbl ∧
     conformsFixed tbl (.ref (.list (.pair .int .bytes))) (.list [.list [.int 1, .bytes []]]) = .mismatch := by
   refine ⟨_, rfl, ?_⟩
   decide
+
+/-- `TagsDistinct` holds of the example declarations, and a value of a recursive, tagged and
+generic type is encoded and accepted -/
+example : TagsDistinct exDecls ∧
+    encode exDecls 8 (.adt 2 .nil) (.con 1 [.int 1, .con 1 [.int 2, .con 0 []]]) =
+      some (.constr 1 [.int 1, .constr 1 [.int 2, .constr 0 []]]) ∧
+    encode exDecls 8 (.adt 1 .nil) (.con 0 [.int 9]) = some (.constr 5 [.int 9]) := by
+  refine ⟨by decide, rfl, rfl⟩
 
 end AikenVerif.C12
